@@ -112,6 +112,7 @@ class Scheduler:
         self.switches = 0
         self.step_cap = step_cap
         self.on_step = on_step
+        self.on_acquired = None  # callback(thread, lock) right after a shim lock was taken
         self.log = log
         self.counters = {}
         self.last_kind = None
@@ -391,6 +392,8 @@ class ShimLock:
         self.held = True
         self.owner = s.current
         self.acquisitions += 1
+        if s.on_acquired is not None:
+            s.on_acquired(s.current, self)
         return True
 
     def release(self):
